@@ -66,12 +66,12 @@ type HistOpts struct {
 // Hist drives a generated history over a world. It is shared by the
 // store-level properties; each property adds its own oracle on top.
 type Hist struct {
-	UploadsDuringSlicing, RotationsDuringSlicing, OverlappedFindMissing int
-	W                                                                   *World
-	T                                                                   *rapid.T
-	C                                                                   *vstats.Case
-	Opt                                                                 HistOpts
-	Failed                                                              map[*Obj]bool
+	UploadsDuringSlicing, RotationsDuringSlicing, OverlappedFindMissing, RotationInReleaseWrite int
+	W                                                                                           *World
+	T                                                                                           *rapid.T
+	C                                                                                           *vstats.Case
+	Opt                                                                                         HistOpts
+	Failed                                                                                      map[*Obj]bool
 	// Counters for non-triviality rules.
 	FailedKeysRead       int
 	HeldAcrossRotation   int
@@ -460,8 +460,9 @@ func (h *Hist) Actions() map[string]func(*rapid.T) {
 		// NotifyPersistentStateWritten.
 		a["rotateDuringStateWrite"] = func(t *rapid.T) {
 			sy := w.syn()
-			if !(holdsStoreLock(sy.S) || holdsStoreLock(sy.R)) || cfg.Mutable && false {
-				// Try to get a syncer there.
+			// Drive a syncer (the release writer first) into the state store.
+			progressed := false
+			for i := 0; i < 8 && !(holdsStoreLock(sy.S) || holdsStoreLock(sy.R)); i++ {
 				switch {
 				case w.CanStepR():
 					w.StepR(0)
@@ -472,9 +473,19 @@ func (h *Hist) Actions() map[string]func(*rapid.T) {
 				case sy.S == nil && !sy.ShutdownDone && w.PutWakeupPending():
 					w.StartS()
 				default:
+					i = 8
+					continue
+				}
+				progressed = true
+			}
+			if !(holdsStoreLock(sy.S) || holdsStoreLock(sy.R)) {
+				if !progressed {
 					fallback()
 				}
 				return
+			}
+			if holdsStoreLock(sy.R) {
+				h.RotationInReleaseWrite++
 			}
 			c.Add("rotateDuringStateWrite")
 			pops := w.St.BL.PopFronts
